@@ -1,5 +1,10 @@
+pub mod cache;
 pub mod conc;
+pub mod corr;
 pub mod crash;
+pub mod fault;
+pub mod live;
+pub mod migr;
 pub mod seq;
 
 use crate::runner::Engine;
@@ -7,12 +12,22 @@ use crate::runner::Engine;
 static SEQ: seq::SeqEngine = seq::SeqEngine;
 static CRASH: crash::CrashEngine = crash::CrashEngine;
 static CONC: conc::ConcEngine = conc::ConcEngine;
+static FAULT: fault::FaultEngine = fault::FaultEngine;
+static LIVE: live::LiveEngine = live::LiveEngine;
+static MIGR: migr::MigrEngine = migr::MigrEngine;
+static CORR: corr::CorrEngine = corr::CorrEngine;
+static CACHE: cache::CacheEngine = cache::CacheEngine;
 
 pub fn engine_by_name(name: &str) -> &'static dyn Engine {
     match name {
         "seq" => &SEQ,
         "crash" => &CRASH,
         "conc" => &CONC,
+        "fault" => &FAULT,
+        "live" => &LIVE,
+        "migr" => &MIGR,
+        "corr" => &CORR,
+        "cache" => &CACHE,
         other => {
             eprintln!("unknown engine {other}");
             std::process::exit(2);
@@ -34,6 +49,10 @@ pub fn engine_for(property: &str) -> &'static dyn Engine {
         "C01" | "C10" | "C11" | "C12" | "C13" | "C14" | "C16" | "C05" => &SEQ,
         "C02" | "C03" | "C04" => &CRASH,
         "C07" | "C08" | "C18" => &CONC,
+        "C09" => &FAULT,
+        "C19" => &LIVE,
+        "C15" => &MIGR,
+        "C17" => &CORR,
         other => {
             eprintln!("no engine for property {other}");
             std::process::exit(2);
@@ -65,14 +84,31 @@ pub fn plan(property: &str) -> Option<Plan> {
     let (stages, level) = match property {
         "C01" => (vec![stage("seq", "C01", 24_000, 400_000)], "exploration"),
         "C05" => (vec![stage("seq", "C05", 20_000, 300_000)], "exploration"),
+        "C09" => (vec![stage("fault", "C09", 8_000, 100_000)], "fault_enumeration"),
         "C10" => (vec![stage("seq", "C10", 20_000, 300_000)], "exploration"),
         "C07" => (vec![stage("conc", "C07", 60_000, 1_500_000)], "exploration"),
         "C08" => (vec![stage("conc", "C08", 40_000, 1_000_000)], "exploration"),
         "C11" => (vec![stage("seq", "C11", 24_000, 300_000), stage("conc", "C11", 30_000, 600_000)], "exploration"),
         "C12" => (vec![stage("seq", "C12", 24_000, 300_000)], "exploration"),
-        "C13" => (vec![stage("seq", "C13", 24_000, 300_000), stage("conc", "C13", 40_000, 800_000)], "exploration"),
+        "C13" => (vec![stage("seq", "C13", 24_000, 300_000), stage("conc", "C13", 40_000, 800_000), stage("crash", "C13", 2_000, 20_000)], "exploration"),
         "C14" => (vec![stage("seq", "C14", 24_000, 300_000), stage("conc", "C14", 40_000, 800_000)], "exploration"),
-        "C16" => (vec![stage("seq", "C16", 12_000, 200_000), stage("conc", "C16", 30_000, 600_000)], "exploration"),
+        "C15" => (vec![stage("migr", "C15", 8_000, 120_000)], "exploration"),
+        "C16" => (vec![stage("seq", "C16", 12_000, 200_000), stage("conc", "C16", 30_000, 600_000), stage("cache", "C16", 20_000, 300_000)], "exploration"),
+        "C17" => (vec![stage("corr", "C17", 30_000, 600_000)], "exploration"),
+        "C19" => (vec![stage("live", "C19", 6_000, 80_000)], "exploration"),
+        "C20" => (
+            vec![
+                stage("conc", "C14", 12_000, 300_000),
+                stage("conc", "C07", 12_000, 300_000),
+                stage("conc", "C08", 10_000, 250_000),
+                stage("conc", "C11", 6_000, 150_000),
+                stage("cache", "C16", 4_000, 80_000),
+                stage("fault", "C09", 1_500, 30_000),
+                stage("corr", "C17", 6_000, 150_000),
+                stage("crash", "C03", 800, 15_000),
+            ],
+            "exploration",
+        ),
         "C02" => (vec![stage("crash", "C02", 6_000, 60_000)], "fault_enumeration"),
         "C03" => (vec![stage("crash", "C03", 6_000, 60_000)], "fault_enumeration"),
         "C04" => (vec![stage("crash", "C04", 2_000, 30_000)], "fault_enumeration"),
